@@ -83,8 +83,9 @@ CHECKS = {
                    "periods against a sequential reference model of instance identity, plus multi-thread races on max_workers; "
                    "oracle = identity rule, strictly increasing executor_id, requested size, previous workers gone, work done",
             "Model-based check of the singleton factory over generated histories and schedules. Exploration.",
-            "SIM kernel model; context/env/reducers arguments are not varied (timeout and initializer are)",
-            "DESIGN.md §6 C09"),
+            "SIM kernel model; context/env/reducers arguments are not varied (timeout and initializer are); REAL part: the same "
+            "sequential histories on real processes, including idle workers killed from outside, judged by the same reference model",
+            "DESIGN.md §6 C09, §11"),
     "C10": ("SIM", "Hypothesis-generated resize histories (old,new in [1..4]^2, in-flight work, timeouts down to 0, 0-1 deaths) "
                    "under PCT / preemption-bounded / random-walk schedules; oracle = call returns (deadlock/livelock verdicts), "
                    "prior work completes, live workers == new and min(old,new) previous pids kept when undisturbed",
@@ -202,7 +203,7 @@ def main():
              "kind_free_text": "Hypothesis / exhaustive grids in-process on functions with substituted inputs"},
             {"name": "SIM", "path": "sim/", "serves_properties": ["C01", "C02", "C03", "C04", "C05", "C06", "C07", "C08", "C09", "C10", "C14", "C19"],
              "kind_free_text": "deterministic simulation: loky's real code objects on a simulated kernel; schedule, clock and crash points are Hypothesis-generated"},
-            {"name": "REAL", "path": "real/", "serves_properties": ["C02", "C06", "C10", "C11", "C12", "C13", "C15", "C18", "C19", "C20"],
+            {"name": "REAL", "path": "real/", "serves_properties": ["C02", "C05", "C06", "C09", "C10", "C11", "C12", "C13", "C15", "C18", "C19", "C20"],
              "kind_free_text": "generated programs on real processes with env-guarded fault points and /proc observation"},
         ],
         "checks": checks,
